@@ -370,6 +370,13 @@ def _v1_constructed(ctx, fx):
                     ctx.ok("V1", inst, fi.where(c), "both maps installed wholesale")
                     continue
                 loop = _registration_loop(fi, fn, o)
+                if loop is None:
+                    verdict = _registers_by_effects(prog, fi, o)
+                    if verdict is True:
+                        ctx.ok("V1", inst, fi.where(c), "every node index of the graph is registered under its payload's node_id (decided on the effects of the function)")
+                        continue
+                    if verdict is None:
+                        raise AnalysisError("V1: %s registers nodes of %s in a shape that is not recognised" % (fi.qualname, o))
                 ok = loop is not None
                 why = "nodes are added to %s._graph but there is neither a wholesale installation of both index maps nor a loop over %s._graph.node_indices() that registers every node under its payload's node_id" % (o, o)
                 if ok:
@@ -388,6 +395,50 @@ def _v1_constructed(ctx, fx):
                         raise AnalysisError("V1: %s: node-creating call on no path" % fi.qualname)
                 ctx.check(ok, "V1", inst, fi.where(c), why, construct=fi.qualname, stmt="constructed tree registers its nodes")
             ctx.analysed(fi)
+
+
+def _registers_by_effects(prog, fi, o):
+    """True: for every pseudo-element i of <o>._graph.node_indices() the function unconditionally registers i under the
+    node_id of the payload at i (through _add_node_to_indices or the two map stores).  False: the function never
+    registers anything on `o`.  None: it does, in a way that is not recognised."""
+    from .. import termflow as tf
+
+    some = False
+    for n in walk_no_nested(fi.node):
+        if isinstance(n, ast.Call) and isinstance(n.func, ast.Attribute) and n.func.attr == "_add_node_to_indices" and isinstance(n.func.value, ast.Name) and n.func.value.id == o:
+            some = True
+        if isinstance(n, ast.Subscript) and isinstance(n.ctx, ast.Store) and isinstance(n.value, ast.Attribute) and n.value.attr in MAPS and isinstance(n.value.value, ast.Name) and n.value.value.id == o:
+            some = True
+    if not some:
+        return False
+    try:
+        ex = extract(prog, fi, opaque_self_methods={"_add_node_to_indices", "update", "_update_path_to_root"}, resolve_new_objects=True)
+    except AnalysisError:
+        return None
+    hits = set()
+    for e in ex.events:
+        if e.name != "._add_node_to_indices" or len(e.args) != 2 or getattr(e, "full_guards", e.guards):
+            continue
+        name, idx = e.args
+        ia = idx.as_atom() if isinstance(idx, tf.Poly) else None
+        if ia is None or ia[0] != "elem":
+            continue
+        dom = key_atom(ia[1])
+        if dom is None or dom[0] != "mcall" or dom[1] != "node_indices":
+            continue
+        graph = dom[2]
+        ga = key_atom(graph)
+        if ga is None or ga[0] != "attr" or ga[2] != "_graph" or ga[1] != vkey(e.recv):
+            continue
+        na = name.as_atom() if isinstance(name, tf.Poly) else None
+        if na is None or na[0] != "attr" or na[2] != "node_id":
+            continue
+        pa = key_atom(na[1])
+        while pa is not None and pa[0] == "mcall" and pa[1] in ("copy", "__copy__"):
+            pa = key_atom(pa[2])
+        if pa is not None and pa[0] == "sub" and pa[1] == graph and pa[2] == idx.key():
+            hits.add(ia[2])
+    return True if len(hits) == tf.K_ELEMS else None
 
 
 def _registration_loop(fi, fn, o):
@@ -463,6 +514,28 @@ def _same_slots(ctx, rule, inst, fi, ex, sp, what):
             wrong.append("%s[%s]: code %s ; spec %s" % (show_key(b)[:50], show_key(i)[:60] if kind == "sub" else i, show(got[hit][3])[:160], show(v)[:160]))
     extra = ["%s[%s]" % (show_key(b)[:50], show_key(i)[:80] if k == "sub" else i) for j, (k, b, i, v) in enumerate(got) if j not in used]
     ok = not missing and not wrong and not extra
+    if not ok:
+        # slots are matched by their index terms; an index computed through a conditional expression or a helper that
+        # returns the label (one store at a conditional index instead of two stores under a test) is the same write:
+        # compare, scenario by scenario, the stores that actually happen (object, index, value by value)
+        from ..formula import effects_agree
+        from ..termflow import ADict, AList
+
+        def stores(x):
+            return [e for e in x.events if e.name in ("store_sub", "store_attr") and not (e.args and isinstance(e.args[0], (ADict, AList)))]
+
+        try:
+            agree, _ = effects_agree(stores(ex), stores(sp))
+        except Exception:  # noqa
+            agree = False
+        if agree:
+            ctx.ok(rule, inst, fi.where(), "%s: %d store(s) agree with the specification scenario by scenario" % (what, len(stores(ex))))
+            return True
+    if not ok:
+        from ..formula import undecided
+
+        flat = lambda xs: [t for (k, b, i, v) in xs for t in (b, i if k == "sub" else None, v) if t is not None]
+        undecided(ctx, rule, inst, flat(got) + list(ex.events), flat(want) + list(sp.events))
     why = "%s differs from the specification:%s%s%s" % (what, (" missing writes: " + "; ".join(missing[:3])) if missing else "", (" different values: " + "; ".join(wrong[:2])) if wrong else "", (" unexpected writes: " + "; ".join(extra[:3])) if extra else "")
     ctx.check(ok, rule, inst, fi.where(), why, construct=fi.qualname, stmt=what, detail="%d final stores agree" % len(want))
     return ok
